@@ -229,7 +229,8 @@ Print Assumptions C06_pn2_no_impossible_stop.
 
 (* Not proved (tested by the check: model = solver on every generated run, oracle = exact retrograde solution):
      the move returned by DFPN with `proven` (the oracle judges it);
-     dfpn_disproven_sound for runs WITH repetitions: open in the design (a bound derived from a repetition on one path is
+     dfpn_disproven_sound for runs WITH repetitions: see blocks 12 and 13 (refuted for the solver as it was, proved after the
+                            repair); history: open in the design (a bound derived from a repetition on one path was
                             stored in the table and reused on other paths); the oracle hunts for a wrong `disproven` on
                             the cyclic region of the solved graphs (positions where the attacker can only shuffle - the
                             only roots where the search meets repetitions) and has found none. *)
@@ -311,16 +312,19 @@ Print Assumptions C06_pn_disproven_attractor_reachable.
 
 
 (* ===================== Block 6: DFPN `disproven` for runs WITH threefold-repetition events =====================
-   Full statement (still open, probably FALSE for a reused solver - see notes/prove3_cong_report.txt):
-       dfpn p = (Disproven, m) -> ~ Wins att [] p          for every run, whatever the counters say.
+   Full statement
+       dfpn p = (Disproven, m) -> ~ Wins att [] p          for every run, whatever the counters say:
+   REFUTED for the solver as it was (a reused solver answered `disproven` for a position won in 12 plies:
+   notes/prove3_cong_report.txt, known_findings.json class reused-solver-wrong-disproven), PROVED for the repaired solver in
+   block 13.  What follows was proved about the unrepaired solver and still holds.
    Proved, in addition to 6 (repetition counter 0): a run that took no bound from the transposition table (DFPNStats.Hits
    unchanged - compared with the solver on every run like Repetition) reports `disproven` only where the attacker has no
    forced win, WITH repetitions, for ANY contents of the table (so also for a reused solver, any earlier attacker).
    The hypothesis on hashes is the depth-indexed no-collision (6c shows that it and the form used in 5/6 follow from
    "equal hash implies Position.Equal" on positions of one game).  Together: the only runs whose `disproven` is not
    covered have BOTH Repetition > 0 and Hits > 0 - the graph-history interaction proper.
-   MISSING for the full statement: bounds stored while an ancestor on the stack was still open are conditional on that
-   ancestor (DfpnRep1.CL); nothing in the solver invalidates them when the ancestor leaves the stack. *)
+   What was missing: bounds stored while an ancestor on the stack was still open are conditional on that ancestor
+   (DfpnRep1.CL) and nothing invalidated them when the ancestor left the stack - the repair stops storing them. *)
 Theorem C06_dfpn_disproven_sound_nohit_partial :
   forall (basis : list N) (aw : bool) (Sp : position -> Prop),
     (forall p m q, Sp p -> terminal aw p = None -> In m (all_moves p) -> dmv basis p m = Ok q -> Sp q) ->
@@ -368,3 +372,117 @@ Print Assumptions C06_nocollision_from_equal.
 (* non-vacuity: DfpnRep2.dfpn_disproven_sound_nohit_applies (the enumerated one-stone game) and, with the position sets by
    representatives of DfpnRep3, DfpnRep4.dfpn_proven_sound_cyclic / dfpn_disproven_sound_nohit_cyclic: a game with slide
    cycles (3x3, stone + capstone per side, 657 classes up to the ply counter), actual runs of the model. *)
+
+(* ================================================================================================================================
+   13. (third wave, worker prove3-cong)  dfpn_disproven_sound IN FULL, for the solver as REPAIRED after the finding of block 12's
+   search ("a reused DFPNSolver answers `disproven` for a position the attacker wins in 12 plies", known_findings.json class
+   reused-solver-wrong-disproven): mid() now stores its result only when the repetition counter did not move during the call
+   (Dfpn.v: rep0).  Invariant (DfpnRep8.v): the table holds unconditional facts only (DfpnFactsL.table_okL); the bounds a call
+   RETURNS are relative to the strict ancestors on the stack (DfpnRep1.CL) and unconditional whenever the call was clean - exactly
+   the calls whose result is stored.  Hypotheses on the set Sp as in block 5, with NoCollisionOn Sp at every depth (12.6c derives
+   it from "equal hash implies Position.Equal" inside one game) and C19 for the defender's threats.
+   No condition on the counters, the table size, the fuel; fresh solver (13a), any solver state whose table holds facts (13b),
+   the reused-solver models prove_on / prove_seq (13c, 13d) - every `disproven` of every call of a sequence is sound.
+   Non-vacuity: DfpnRep4.dfpn_disproven_sound_cyclic (a game with slide cycles, 657 classes of positions, an actual run).
+   ================================================================================================================================ *)
+Require Import DfpnRep5 DfpnRep6 DfpnRep8.
+
+Theorem C06_dfpn_disproven_sound :
+  forall (basis : list N) (aw : bool) (Sp : position -> Prop),
+    (forall p m q, Sp p -> terminal aw p = None -> In m (all_moves p) -> dmv basis p m = Ok q -> Sp q) ->
+    (forall p, Sp p -> size p <= 8) ->
+    (forall p q, Sp p -> Sp q -> hash_of p = hash_of q ->
+       (forall n, wn position (succs basis) (terminal aw) (attp aw) n p = wn position (succs basis) (terminal aw) (attp aw) n q) /\
+       to_move_white p = to_move_white q /\ terminal aw p = terminal aw q) ->
+    (forall p, Sp p -> hash_of p <> 0) ->
+    (forall p, Sp p -> terminal aw p = None -> all_moves p <> []) ->
+    (forall p, Sp p -> terminal aw p = None -> solve p <> None -> attp aw p = false ->
+       exists q, In q (succs basis p) /\ terminal aw q = Some false) ->
+    forall lfuel dfuel entries g s e w,
+      Sp g -> prove basis aw lfuel dfuel entries g = (s, e, w) -> result_of aw g e = 2 ->
+      forall n, wn position (succs basis) (terminal aw) (attp aw) n g = false.
+Proof. exact dfpn_disproven_sound. Qed.
+Print Assumptions C06_dfpn_disproven_sound.
+
+(* 13b. from any solver state whose table holds only facts (true of a fresh table); the table it leaves holds only facts again *)
+Theorem C06_dfpn_disproven_sound_from :
+  forall (basis : list N) (aw : bool) (Sp : position -> Prop),
+    (forall p m q, Sp p -> terminal aw p = None -> In m (all_moves p) -> dmv basis p m = Ok q -> Sp q) ->
+    (forall p, Sp p -> size p <= 8) ->
+    (forall p q, Sp p -> Sp q -> hash_of p = hash_of q ->
+       (forall n, wn position (succs basis) (terminal aw) (attp aw) n p = wn position (succs basis) (terminal aw) (attp aw) n q) /\
+       to_move_white p = to_move_white q /\ terminal aw p = terminal aw q) ->
+    (forall p, Sp p -> hash_of p <> 0) ->
+    (forall p, Sp p -> terminal aw p = None -> all_moves p <> []) ->
+    (forall p, Sp p -> terminal aw p = None -> solve p <> None -> attp aw p = false ->
+       exists q, In q (succs basis p) /\ terminal aw q = Some false) ->
+    forall lfuel dfuel s0 g s e w,
+      Sp g -> table_okL basis aw Sp s0 -> dstack s0 = [] -> prove_from basis aw lfuel dfuel s0 g = (s, e, w) ->
+      table_okL basis aw Sp s /\
+      (result_of aw g e = 2 -> forall n, wn position (succs basis) (terminal aw) (attp aw) n g = false).
+Proof. exact dfpn_disproven_sound_from. Qed.
+Print Assumptions C06_dfpn_disproven_sound_from.
+
+(* 13c. one call of a reused solver (Dfpn.prove_on): sv_okL = "if the solver was last used for this attacker, its table holds facts" *)
+Theorem C06_dfpn_on_sound :
+  forall (basis : list N) (aw : bool) (Sp : position -> Prop),
+    (forall p m q, Sp p -> terminal aw p = None -> In m (all_moves p) -> dmv basis p m = Ok q -> Sp q) ->
+    (forall p, Sp p -> size p <= 8) ->
+    (forall p q, Sp p -> Sp q -> hash_of p = hash_of q ->
+       (forall n, wn position (succs basis) (terminal aw) (attp aw) n p = wn position (succs basis) (terminal aw) (attp aw) n q) /\
+       to_move_white p = to_move_white q /\ terminal aw p = terminal aw q) ->
+    (forall p, Sp p -> hash_of p <> 0) ->
+    (forall p, Sp p -> terminal aw p = None -> all_moves p <> []) ->
+    (forall p, Sp p -> terminal aw p = None -> solve p <> None -> attp aw p = false ->
+       exists q, In q (succs basis p) /\ terminal aw q = Some false) ->
+    forall lfuel dfuel cfg_attacker sv g sv' s e w r,
+      aw = match cfg_attacker with 1 => true | 2 => false | _ => to_move_white g end ->
+      Sp g -> sv_okL basis aw Sp sv -> prove_on basis lfuel dfuel cfg_attacker sv g = (sv', (s, e, w, r)) ->
+      sv_okL basis aw Sp sv' /\ (r = 2 -> forall n, wn position (succs basis) (terminal aw) (attp aw) n g = false).
+Proof. exact dfpn_on_sound. Qed.
+Print Assumptions C06_dfpn_on_sound.
+
+(* 13d. a whole sequence of calls on one solver with a configured attacker (what gencorpus -analysis dfpn does): every
+   `disproven` is sound - the statement the finding refuted for the unrepaired solver *)
+Theorem C06_dfpn_seq_sound :
+  forall (basis : list N) (aw : bool) (Sp : position -> Prop),
+    (forall p m q, Sp p -> terminal aw p = None -> In m (all_moves p) -> dmv basis p m = Ok q -> Sp q) ->
+    (forall p, Sp p -> size p <= 8) ->
+    (forall p q, Sp p -> Sp q -> hash_of p = hash_of q ->
+       (forall n, wn position (succs basis) (terminal aw) (attp aw) n p = wn position (succs basis) (terminal aw) (attp aw) n q) /\
+       to_move_white p = to_move_white q /\ terminal aw p = terminal aw q) ->
+    (forall p, Sp p -> hash_of p <> 0) ->
+    (forall p, Sp p -> terminal aw p = None -> all_moves p <> []) ->
+    (forall p, Sp p -> terminal aw p = None -> solve p <> None -> attp aw p = false ->
+       exists q, In q (succs basis p) /\ terminal aw q = Some false) ->
+    forall lfuel dfuel cfg_attacker, cfg_attacker = att_of aw ->
+    forall gs sv, Forall Sp gs -> sv_okL basis aw Sp sv ->
+      Forall2 (fun g (out : dstate * dentry * N * N) => snd out = 2 -> forall n, wn position (succs basis) (terminal aw) (attp aw) n g = false)
+              gs (prove_seq basis lfuel dfuel cfg_attacker sv gs).
+Proof. exact dfpn_seq_sound. Qed.
+Print Assumptions C06_dfpn_seq_sound.
+
+(* 13e. a fresh dsolver satisfies sv_okL *)
+Theorem C06_sv0_okL : forall (basis : list N) (aw : bool) (Sp : position -> Prop),
+  (forall p, Sp p -> hash_of p <> 0) -> forall entries, sv_okL basis aw Sp (dsolver0 entries).
+Proof. exact sv0_okL. Qed.
+Print Assumptions C06_sv0_okL.
+
+(* 13f. kept from the analysis of the unrepaired solver (still true): a call that takes no bound from the table is sound whatever
+   the table holds (prove_on form), and a call on a table of facts that meets no repetition is sound and leaves a table of facts *)
+Theorem C06_dfpn_disproven_sound_nohit_on :
+  forall (basis : list N) (Sp : position -> Prop) (cfg_attacker : N) (sv sv' : dsolver) (g : position) lfuel dfuel s e w r,
+    let aw := match cfg_attacker with 1 => true | 2 => false | _ => to_move_white g end in
+    (forall p m q, Sp p -> terminal aw p = None -> In m (all_moves p) -> dmv basis p m = Ok q -> Sp q) ->
+    (forall p, Sp p -> size p <= 8) ->
+    (forall p q, Sp p -> Sp q -> hash_of p = hash_of q ->
+       forall n, wn position (succs basis) (terminal aw) (attp aw) n p = wn position (succs basis) (terminal aw) (attp aw) n q) ->
+    (forall p, Sp p -> terminal aw p = None -> all_moves p <> []) ->
+    (forall p, Sp p -> terminal aw p = None -> solve p <> None -> attp aw p = false ->
+       exists q, In q (succs basis p) /\ terminal aw q = Some false) ->
+    Sp g -> prove_on basis lfuel dfuel cfg_attacker sv g = (sv', (s, e, w, r)) -> ds_hits (dst s) = 0 -> r = 2 ->
+    forall n, wn position (succs basis) (terminal aw) (attp aw) n g = false.
+Proof. exact dfpn_disproven_sound_nohit_on. Qed.
+Print Assumptions C06_dfpn_disproven_sound_nohit_on.
+
+(* Still not proved: the move returned by DFPN with `proven` (judged by the oracle). *)
